@@ -193,8 +193,17 @@ func unpackSVCBResource(msg []byte, off int, length uint16) (SVCBResource, error
 		return SVCBResource{}, &nestedError{"Priority", err}
 	}
 
+	targetOff := paramsOff
 	if paramsOff, err = r.Target.unpack(msg, paramsOff); err != nil {
 		return SVCBResource{}, &nestedError{"Target", err}
+	}
+	// https://www.rfc-editor.org/rfc/rfc9460.html#section-2.2 prohibits compression
+	// of the Target. Expanding a compressed Target could also make the resource
+	// too long to be packed again.
+	for i := targetOff; i < paramsOff; i += int(msg[i]) + 1 {
+		if msg[i]&0xC0 == 0xC0 {
+			return SVCBResource{}, &nestedError{"Target", errCompressedTarget}
+		}
 	}
 
 	// Two-pass parsing to avoid allocations.
